@@ -1005,6 +1005,11 @@ def gen_module(rng, features=(), size=14):
             else:
                 g.emit(0, "class %s: %s" % (x, rng.choice(["pass", "%s = %s" % (g.name(), g.simple(1))])))
                 classes.append(x)
+        if "globalfresh" in features and rng.random() < 0.3:
+            # a global statement at module level for a name the module does not bind
+            unbound = [x for x in POOL if x not in mnames]
+            if unbound:
+                g.emit(0, "global " + rng.choice(unbound))
         ctx = dict(kind="module", module_names=mnames, classes=classes)
         g.block(0, ctx, rng.randint(2, 5))
         src = "\n".join(g.lines) + ("\n" if rng.random() < 0.9 else "")
